@@ -81,6 +81,19 @@ func runMapOrder(payload string) string {
 	if err != nil {
 		return "harness-error atlas: " + err.Error()
 	}
+	// another atlas over the same Go types with every sort mode changed is built afterwards (and dropped): an
+	// atlas is immutable once built, whatever other atlases the program builds later
+	{
+		adB := &atlasD{mode: (ad.mode + 1) % 3}
+		for _, e := range ad.entries {
+			eb := *e
+			if e.kind == "mm" {
+				eb.mode = (e.mode + 1) % 3
+			}
+			adB.entries = append(adB.entries, &eb)
+		}
+		adB.build()
+	}
 	v, err := env.valueOfSx(t, vx[0])
 	if err != nil {
 		return "harness-error value: " + err.Error()
